@@ -504,7 +504,7 @@ pub fn main(env: &Env) -> i32 {
          half of the cases run clean (optionally with the opposite direction running concurrently through tokio::io::split) and are judged at quiescence: no deadlock, flushed bytes arrived, nothing but a prefix of what was written, EOF exactly after shutdown, wire = frames with 16 <= len <= 65535; \
          the other half apply one tamper to the recorded ciphertext (bit flip, delete, insert, truncate, duplicate / swap / drop / replay a frame) and require: output is a prefix of the written plaintext followed by error or EOF. \
          Non-trivial = a write spanning >= 2 frames or fragmented polls (clean), or a tamper that changes the stream (tampered); distinct = whole case",
-        PartOpts { cases: env.tier.pick(40_000, 1_000_000), max_shrink_iters: 1500, samples: 3 },
+        PartOpts { cases: env.tier.pick(40_000, 500_000), max_shrink_iters: 1500, samples: 3 },
         || Choices::strategy(200).prop_map(|mut ch| gen_case(&mut ch)),
         check,
     ));
